@@ -146,7 +146,7 @@ def main():
 
     sys.path.insert(0, HERE)
     pid = args.property
-    tier = args.tier if args.tier in ('quick', 'thorough') else 'quick'
+    tier = args.tier if args.tier in ('quick', 'thorough', 'full') else 'quick'
     seed = int(os.environ.get('VERIF_SEED', '0') or 0)
     import importlib
     conf = importlib.import_module('harness.conformance')
@@ -156,10 +156,17 @@ def main():
     else:
         mod = importlib.import_module('harness.' + pid.lower())
         # 'full' = the complete cross product a module defines for its deep tier; 'thorough' = the registered deep tier: the same
-        # list thinned deterministically (every THOROUGH_STRIDE-th instance) so that the command finishes in about 20 minutes
+        # list thinned deterministically (every THOROUGH_STRIDE-th instance of each family) so that the command finishes in about 20 minutes
         insts = mod.instances('thorough' if tier == 'full' else tier)
         if tier == 'thorough':
-            insts = insts[::getattr(mod, 'THOROUGH_STRIDE', 1)]
+            # thinned per family (first two components of the instance name), so every family keeps at least its first instance
+            stride, seen, kept = getattr(mod, 'THOROUGH_STRIDE', 1), {}, []
+            for i in insts:
+                fam = '/'.join(i['name'].split('/')[:2])
+                if seen.get(fam, 0) % stride == 0:
+                    kept.append(i)
+                seen[fam] = seen.get(fam, 0) + 1
+            insts = kept
         for i in insts:
             i.setdefault('module', 'harness.' + pid.lower())
         if not args.only and not args.no_conformance:
